@@ -17,8 +17,15 @@ def fmin(m):
 
 def wh_lines(specs, ind):
     out = []
+    order = ["mon", "tue", "wed", "thu", "fri", "sat", "sun"]
     for sp in specs:
         days = ", ".join(sp["days"])
+        ds = sp["days"]
+        # a run of consecutive weekdays may be written as a range, also one that wraps past the end of the week (`sat - tue`);
+        # which spelling is used depends on the days themselves, so that it is the same whenever the project is rendered
+        if 2 <= len(ds) <= 6 and all(order[(order.index(ds[0]) + j) % 7] == d for j, d in enumerate(ds)) and \
+                (order.index(ds[0]) + len(ds)) % 2 == 0:
+            days = f"{ds[0]} - {ds[-1]}"
         rng = ", ".join(f"{fmin(a)} - {fmin(b)}" for a, b in sp["ranges"])
         out.append(f"{ind}workinghours {days} {rng}")
     return out
